@@ -203,7 +203,7 @@ def run(ctx):
             got = pv_eval(Env(var_fmt=False, vars={"var_count": str(n)}, counts={"var_count": n}), v) if v else None
             ctx.count("parse-time-count")
             if got != exp:
-                report_violation(ctx, "ranges:parse-time-branch-differs", {"case": project_text(p), "key": key, "count": n,
+                report_violation(ctx, "ranges:parse-time-branch-differs", {"case": project_text(p), "key": key, "count": str(n),
                                                                           "expected_by_spec": exp, "implementation": got})
     decls = []
     for _ in range(ctx.budget(120, 2500)):
